@@ -31,6 +31,15 @@ CMB_THREAD_LOCAL struct cmi_coroutine *coroutine_current = NULL;
 /* Assembly function, see src/port/x86-64/Linux/cmi_coroutine_context_*.asm */
 extern void *cmi_coroutine_context_switch(void **old, void **new, void *ret);
 
+#include "cmi_verif.h"
+#ifdef CMI_VERIF_ASAN
+/* To be called first thing in a coroutine function when running under ASan */
+void cmi_verif_fiber_entered(void)
+{
+    __sanitizer_finish_switch_fiber(NULL, NULL, NULL);
+}
+#endif
+
 /* OS-specific C code, see src/arch/cmi_coroutine_context_*.c */
 extern bool cmi_coroutine_stack_valid(const struct cmi_coroutine *cp);
 extern void cmi_coroutine_context_init(struct cmi_coroutine *cp);
@@ -249,7 +258,16 @@ extern void *cmi_coroutine_transfer(struct cmi_coroutine *to, void *msg)
     /* The actual context switch happens in assembly */
     void **fromstk = (void **)&(from->stack_pointer);
     void **tostk = (void **)&(to->stack_pointer);
+#ifdef CMI_VERIF_ASAN
+    void *verif_fake_stack = NULL;
+    const unsigned char *verif_bottom = (to->stack != NULL) ? to->stack : to->stack_limit;
+    __sanitizer_start_switch_fiber((from->status == CMI_COROUTINE_FINISHED) ? NULL : &verif_fake_stack,
+                                   verif_bottom, (size_t)(to->stack_base - verif_bottom));
+#endif
     void *ret = cmi_coroutine_context_switch(fromstk, tostk, msg);
+#ifdef CMI_VERIF_ASAN
+    __sanitizer_finish_switch_fiber(verif_fake_stack, NULL, NULL);
+#endif
 
     /* Possibly much later, when control has returned here again */
     cmb_assert_debug(cmi_coroutine_stack_valid(to));
